@@ -3,13 +3,16 @@
    (DESIGN Appendix E).  One record `st` is the whole state; each operation is a pure function
    st -> [st, ret]; the database part (dbtx, dbsp, committed) is the reference nested-transaction model. *)
 EXTENDS Integers, Sequences, FiniteSets, TLC, Json
-CONSTANTS MaxH, MaxRows, MaxDepth
+CONSTANTS MaxH, MaxRows, MaxDepth,
+          Ctx      \* TRUE: context-manager actions (with handle: ...) are part of the graph
 VARIABLES st, last
 vars == <<st, last>>
 NoH == 0
-HRec(kind, sp, prev) == [kind |-> kind, active |-> TRUE, prev |-> prev, sp |-> sp]
+\* outer / subj / entered: TransactionalContext state of the handle (_outer_trans_ctx, _trans_subject set, __enter__ called)
+HRec(kind, sp, prev) == [kind |-> kind, active |-> TRUE, prev |-> prev, sp |-> sp, outer |-> 0, subj |-> FALSE, entered |-> FALSE]
 InitSt == [h |-> <<>>, root |-> NoH, nested |-> NoH, dbtx |-> << {} >>, dbsp |-> <<>>, committed |-> {},
            spseq |-> 0, closed |-> FALSE, nrow |-> 0,
+           tcm |-> 0,   \* Connection._trans_context_manager (handle id)
            \* ghost: abstract reference model over the USER's handles (RefNested): rowh[k] = handle that was current when
            \* row k was written (0 = none), dead = rows undone by a savepoint rollback, pend = rows of the open transaction,
            \* refc = rows the reference says are committed
@@ -39,20 +42,26 @@ Cancel(s, x) == IF x = NoH THEN s
                          s2 == IF s1.nested = x THEN [s1 EXCEPT !.nested = s1.h[x].prev] ELSE s1
                      IN Cancel(s2, s.h[x].prev)
 NewRoot(s) == LET id == Len(s.h) + 1 IN [s EXCEPT !.h = Append(@, HRec("root", 0, NoH)), !.root = id]
+\* TransactionalContext._trans_ctx_check: inside a `with` block whose transaction has ended, further use is refused
+CtxBad(s) == s.tcm # NoH /\ ~s.h[s.tcm].active
 DoBegin(s) == IF s.closed THEN R(s, "ResourceClosedError")
-              ELSE IF s.root = NoH THEN R(NewRoot(s), "ok") ELSE R(s, "InvalidRequestError")
+              ELSE IF s.root = NoH THEN (IF CtxBad(s) THEN R(s, "InvalidRequestError") ELSE R(NewRoot(s), "ok"))
+              ELSE R(s, "InvalidRequestError")
 Auto(s) == IF s.root = NoH THEN NewRoot(s) ELSE s
 DoNested(s) == IF s.closed THEN R(s, "ResourceClosedError")
+               ELSE IF s.root = NoH /\ CtxBad(s) THEN R(s, "InvalidRequestError")      \* autobegin -> RootTransaction.__init__ check
                ELSE LET s0 == Auto(s) IN
-                    IF s.root # NoH /\ ~s.h[s.root].active THEN R(s, "PendingRollbackError")
+                    IF CtxBad(s0) THEN R(s0, "InvalidRequestError")                     \* NestedTransaction.__init__ check
+                    ELSE IF s.root # NoH /\ ~s.h[s.root].active THEN R(s, "PendingRollbackError")
                     ELSE IF Guard(s0) THEN R(s0, "PendingRollbackError")
                     ELSE LET n == s0.spseq + 1 id == Len(s0.h) + 1
                              s1 == DbSavepoint([s0 EXCEPT !.spseq = n], n)
                          IN R([s1 EXCEPT !.h = Append(@, HRec("sp", n, s0.nested)), !.nested = id], "ok")
 DoExec(s) == IF s.closed THEN R(s, "ResourceClosedError")
+             ELSE IF Guard(s) THEN R(s, "PendingRollbackError")                          \* _execute_context: guard, then ctx check,
+             ELSE IF CtxBad(s) THEN R(s, "InvalidRequestError")                          \* then autobegin
              ELSE LET s0 == Auto(s) IN
-                  IF Guard(s0) THEN R(s0, "PendingRollbackError")
-                  ELSE LET k == s0.nrow + 1 IN
+                  LET k == s0.nrow + 1 IN
                        R([s0 EXCEPT !.nrow = k, !.dbtx[Len(s0.dbtx)] = @ \cup {k},
                                     !.rowh = Append(@, s0.nested), !.pend = @ \cup {k}], "ok")
 RootCloseImpl(s, x, tryDeact) ==
@@ -74,7 +83,9 @@ SpCloseImpl(s0, x, warnFlag) ==
    LET s == Mark(s0, x) IN
    IF s.h[x].active /\ InTx(s) THEN
       LET i == SpIndex(s, s.h[x].sp)
-          err == IF Guard(s) THEN "PendingRollbackError" ELSE IF i = 0 THEN "OperationalError" ELSE "none"
+          \* ROLLBACK TO / RELEASE are statements: they pass the same guard and with-block check as execute()
+          err == IF Guard(s) THEN "PendingRollbackError" ELSE IF CtxBad(s) THEN "InvalidRequestError"
+                 ELSE IF i = 0 THEN "OperationalError" ELSE "none"
       IN IF err # "none" THEN LET s1 == Unlink(SetInactive(s, x), x)
                               IN R(s1, IF s.nested # x /\ warnFlag THEN err \o "+warn" ELSE err)
          ELSE LET s1 == Unlink(SetInactive(Kill(DbRollbackTo(s, i), x), x), x)
@@ -84,6 +95,7 @@ SpCommit(s0, x) ==
    LET s == Mark(s0, x) IN
    IF s.h[x].active THEN
       IF Guard(s) THEN R(SetInactive(s, x), "PendingRollbackError")
+      ELSE IF CtxBad(s) THEN R(SetInactive(s, x), "InvalidRequestError")
       ELSE LET i == SpIndex(s, s.h[x].sp) IN
            IF i = 0 THEN R(SetInactive(s, x), "OperationalError")
            ELSE LET s1 == SetInactive(DbRelease(s, i), x) IN
@@ -95,6 +107,27 @@ HOp(s, x, op) == IF s.h[x].kind = "root"
 DoConnCommit(s) == IF s.root # NoH THEN HOp(s, s.root, "commit") ELSE R(s, "ok")
 DoConnRollback(s) == IF s.root # NoH THEN HOp(s, s.root, "rollback") ELSE R(s, "ok")
 DoClose(s) == LET s1 == IF s.root # NoH THEN HOp(s, s.root, "close").st ELSE DbRollback(s) IN R([s1 EXCEPT !.closed = TRUE], "ok")
+\* ---------- context managers (engine/util.py TransactionalContext) ----------
+Warned == {"ok+warn", "PendingRollbackError+warn", "OperationalError+warn", "InvalidRequestError+warn", "raised+warn"}
+IsOk(r) == r \in {"ok", "ok+warn"}
+Base(r) == CASE r = "ok+warn" -> "ok" [] r = "PendingRollbackError+warn" -> "PendingRollbackError"
+             [] r = "OperationalError+warn" -> "OperationalError" [] r = "InvalidRequestError+warn" -> "InvalidRequestError" [] OTHER -> r
+W(r, warn) == IF warn THEN Base(r) \o "+warn" ELSE Base(r)
+DoEnter(s, x) == R([s EXCEPT !.h[x].outer = s.tcm, !.h[x].subj = TRUE, !.h[x].entered = TRUE, !.tcm = x], "ok")
+Detached(s, x) == IF s.h[x].kind = "root" THEN s.root # x ELSE s.nested # x
+DoExit(s, x, exc) ==
+   LET oob == ~s.h[x].subj \/ s.tcm # x
+       Fin(z) == LET z1 == IF ~oob THEN [z EXCEPT !.tcm = s.h[x].outer] ELSE z
+                 IN [z1 EXCEPT !.h[x].subj = FALSE, !.h[x].outer = NoH]
+   IN IF ~exc /\ s.h[x].active
+      THEN LET c == HOp(s, x, "commit") IN
+           IF IsOk(c.ret) THEN R(Fin(c.st), c.ret)
+           ELSE LET rb == HOp(c.st, x, "rollback")           \* except: safe_reraise(rollback()) - the commit error propagates
+                IN R(Fin(rb.st), W(c.ret, c.ret \in Warned \/ rb.ret \in Warned))
+      ELSE LET r == IF ~s.h[x].active
+                    THEN (IF Detached(s, x) THEN HOp(s, x, "close") ELSE R(s, "ok"))
+                    ELSE HOp(s, x, "rollback")
+           IN R(Fin(r.st), IF ~IsOk(r.ret) THEN r.ret ELSE IF exc THEN W("raised", r.ret \in Warned) ELSE r.ret)
 \* ---------- actions ----------
 Step(name, arg, res) == st' = res.st /\ last' = [a |-> name, arg |-> arg, ret |-> res.ret]
 Open == ~st.closed
@@ -106,7 +139,11 @@ ConnRollback == Open /\ Step("ConnRollback", 0, DoConnRollback(st))
 HandleOp == Open /\ \E x \in 1..Len(st.h), op \in {"commit", "rollback", "close"} : Step("H_" \o op, x, HOp(st, x, op))
 Close == Open /\ Step("Close", 0, DoClose(st))
 Init == st = InitSt /\ last = [a |-> "init", arg |-> 0, ret |-> "ok"]
-Next == (Len(st.h) < MaxH /\ Begin) \/ BeginNested \/ Exec \/ ConnCommit \/ ConnRollback \/ HandleOp \/ Close
+WithEnter == Ctx /\ Open /\ \E x \in 1..Len(st.h) : ~st.h[x].entered /\ Step("WithEnter", x, DoEnter(st, x))
+WithExit == Ctx /\ Open /\ \E x \in 1..Len(st.h) : st.h[x].subj /\
+              \/ Step("WithExit", x, DoExit(st, x, FALSE))
+              \/ Step("WithExitExc", x, DoExit(st, x, TRUE))
+Next == (Len(st.h) < MaxH /\ Begin) \/ BeginNested \/ Exec \/ ConnCommit \/ ConnRollback \/ HandleOp \/ Close \/ WithEnter \/ WithExit
 Spec == Init /\ [][Next]_vars
 View == st
 Obs(s) == [intx |-> InTx(s), innested |-> InNested(s), closed |-> s.closed, committed |-> s.committed]
@@ -115,10 +152,10 @@ InitEmit == Init /\ PrintT(ToJson([init |-> st]))
 Depth == TLCGet("level") <= MaxDepth
 \* ---------- properties ----------
 \* rows become visible to others only through a root commit, and a commit publishes exactly the rows of the surviving frames
-CommittedOnlyByCommit == [][st'.committed # st.committed => last'.a \in {"ConnCommit", "H_commit"} /\ last'.ret = "ok"]_vars
+CommittedOnlyByCommit == [][st'.committed # st.committed => last'.a \in {"ConnCommit", "H_commit", "WithExit"} /\ last'.ret = "ok"]_vars
 NothingLost == st.committed \subseteq 1..st.nrow
 \* an operation that raises changes neither the database nor (except for deactivating the handle it was called on) the flags
-ErrorsDontAct == [][ (last'.ret \notin {"ok", "ok+warn"}) => (st'.committed = st.committed /\ st'.dbtx = st.dbtx) ]_vars
+ErrorsDontAct == [][ (last'.ret \notin {"ok", "ok+warn", "raised", "raised+warn"} /\ last'.a \notin {"WithExit", "WithExitExc"}) => (st'.committed = st.committed /\ st'.dbtx = st.dbtx) ]_vars
 FlagsConsistent == (InNested(st) => InTx(st)) /\ (st.closed => ~InTx(st))
 \* the db savepoint stack never holds fewer savepoints than there are *current-chain* active nested handles, unless misuse occurred
 PointerSane == st.nested # NoH => st.h[st.nested].kind = "sp"
@@ -133,6 +170,11 @@ InOrder(P) == ~st.ooo => P
 RefAgree_InOrder == InOrder(RefAgree)
 RefAgreeLive_InOrder == InOrder(RefAgreeLive)
 NestedHasSavepoint_InOrder == InOrder(NestedHasSavepoint)
+\* C23 "use after the transaction of an enclosing with-block ended": statements and new transactions are refused, nothing acts
+CtxEndedRefuses == [][ (CtxBad(st) /\ ~Guard(st) /\ last'.a \in {"Exec", "Begin", "BeginNested"})
+                         => (last'.ret = "InvalidRequestError" /\ st'.dbtx = st.dbtx /\ st'.committed = st.committed) ]_vars
+\* leaving a with-block normally commits (publishes) exactly like commit(); leaving it with an exception publishes nothing
+CtxExitExcNeverPublishes == [][ last'.a = "WithExitExc" => st'.committed = st.committed ]_vars
 \* an operation on an ended transaction raises (or is a no-op close/rollback) instead of acting on the database
 EndedDontAct == [][ \A x \in 1..Len(st.h) :
                       (last'.a \in {"H_commit", "H_rollback", "H_close"} /\ last'.arg = x /\ ~st.h[x].active)
